@@ -93,6 +93,32 @@ def run(ctx):
             cases.append({"fmt": "par2", "name": name, "pos": pos, "fs": fs,
                           "vline": L.line_verify("p2", "real", DEEP + "/arc.par2", 1, fs, dirs=dirs),
                           "rline": L.line_repair("p2", "real", DEEP + "/arc.par2", False, 1, fs, dirs=dirs)})
+    # ---- 2b. PAR2: the same names smuggled in where a name might escape validation: a ZERO-LENGTH entry (gopar rejects empty
+    # files - a reader that accepted them must still check the name), and the optional Unicode-filename packet of PAR 2.0
+    # ("PAR 2.0\0UniFileN": file id + UTF-16 name), which gopar ignores - a reader that honoured it must check that name too ----
+    for name in ("../x", "sub/../../x", "/abs", "a/../../x"):
+        pos = 0
+        for variant in ("zero-length", "unifilen"):
+            try:
+                if variant == "zero-length":
+                    ms = R.MutSet(good, S, decl={good[pos][0]: {"name": name, "len": 0, "pairs": []}})
+                    arc = R.archive(ms, [0, 1, 2, 3])
+                else:
+                    ms = R.MutSet(good, S)
+                    arc = R.archive(ms, [0, 1, 2, 3])
+                    fid = [f_["id"] for f_ in ms.files if f_["name"] == good[pos][0]][0]
+                    uni = W.packet(ms.setid, b"PAR 2.0\0UniFileN", fid + name.encode("utf-16-le") + (b"\0\0" if len(name) % 2 else b""))
+                    arc = {p_: (d_ + uni if p_.endswith("arc.par2") else d_) for p_, d_ in arc.items()}
+            except Exception:
+                continue
+            arc = {p_.replace(P.DIR, DEEP): d_ for p_, d_ in arc.items()}
+            fs = dict(arc)
+            for k in range(1, 7):
+                fs["/" + "/".join(DEEP.split("/")[1:k]) + ("/" if k > 1 else "") + "canary%d.txt" % k] = b"canary %d" % k
+            fs["/c/a/x"] = b"do not touch"
+            cases.append({"fmt": "par2", "name": "%s (%s)" % (name, variant), "pos": pos, "fs": fs,
+                          "vline": L.line_verify("p2", "real", DEEP + "/arc.par2", 1, fs, dirs=[DEEP, DEEP + "/sub"]),
+                          "rline": L.line_repair("p2", "real", DEEP + "/arc.par2", False, 1, fs, dirs=[DEEP, DEEP + "/sub"])})
     # ---- 3. PAR1: declared entry names from the corpus ----
     gfiles = [("p1a.dat", L.gen_content(rng, "random", 11)), ("p1b.dat", L.gen_content(rng, "random", 8))]
     for name in TRAVERSAL:
